@@ -27,6 +27,7 @@ var c06Configs = []config.ReportConfiguration{
 	{IncludeReportCreationTime: true, ReportSchemaIri: "file:///dialects/validation-report.yaml", LexicalSchemaIri: "file:///dialects/lexical-2.0.yaml"},
 	{IncludeReportCreationTime: false, ReportSchemaIri: "file:///other/report.yaml", LexicalSchemaIri: "file:///dialects/lexical.yaml"},
 	{IncludeReportCreationTime: true, ReportSchemaIri: "file:///other/report.yaml", LexicalSchemaIri: "file:///other/lexical.yaml"},
+	{IncludeReportCreationTime: false, ReportSchemaIri: "file:///dialects/validation-report.yaml", LexicalSchemaIri: "file:///dialects/lexical.yaml"},
 }
 
 func OneShot(profilePath, dataPath string, cfg int) {
@@ -246,7 +247,7 @@ validations:
 
 func C06(e *core.Env) {
 	res := e.Res
-	res.Rule = "cases = (profile, data): generated Rego and report (fixed clock) computed by N fresh processes (quick 10, thorough 40), by repeated calls in one process, and by 8 goroutines at once; all bytes must be identical; profiles: several quantified constraints and properties per propertyConstraints map, several prefixes incl. a redeclared built-in one, deep nesting, alternations nested in alternations followed by further steps, 48 validations, repository fixtures; a profile relying on a built-in prefix before / after a profile that rebinds it, against the fresh-process report; a history of 10 validations cycling through 4 report configurations (sharing / differing in each field) against the fresh-process report of each configuration; data: failing documents with lexical source maps, with TWO source-information nodes, with several results per level; " +
+	res.Rule = "cases = (profile, data): generated Rego and report (fixed clock) computed by N fresh processes (quick 10, thorough 40), by repeated calls in one process, and by 8 goroutines at once; all bytes must be identical; profiles: several quantified constraints and properties per propertyConstraints map, several prefixes incl. a redeclared built-in one, deep nesting, alternations nested in alternations followed by further steps, 48 validations, repository fixtures; a profile relying on a built-in prefix before / after a profile that rebinds it, against the fresh-process report; a history of 13 validations cycling through 5 report configurations (sharing / differing in each field) against the fresh-process report of each configuration; data: failing documents with lexical source maps, with TWO source-information nodes, with several results per level; " +
 		"non-trivial = the report has results; distinct by (profile, data, mode)"
 	self, _ := os.Executable()
 	g := RandomEdgeGraph(e.Rand, 5, []string{"a", "b", "c"}, 0.4)
@@ -426,7 +427,7 @@ func C06(e *core.Env) {
 			}
 			freshOf[k] = m["report"]
 		}
-		order := []int{0, 1, 0, 3, 2, 1, 3, 0, 2, 1}
+		order := []int{0, 1, 0, 3, 2, 1, 4, 0, 3, 0, 2, 4, 1}
 		for step, k := range order {
 			o, err := pkg.ValidateWithConfiguration(p, d, false, nil, clockA, c06Configs[k])
 			if err != nil {
